@@ -131,8 +131,14 @@ Step(st, w, c, n, after, J) ==
       a == IF d.skip THEN d.st ELSE Act(d.st, c, n, after, J)
   IN [skip |-> d.skip, st |-> [a EXCEPT !.frames = @ + 1]]
 
-\* a new line: _SccTimeTranslator.start_at
-Line(st, f) == [st EXCEPT !.base = f, !.frames = 0]
+\* a new line: _SccTimeTranslator.continues_at / start_at.  A word repeats the one before it only
+\* when it is sent in the very next frame: a line that does not go on where the previous one
+\* stopped forgets last_command (so a later line may start with the code the previous one ended
+\* with - "942f" ... "942f" in a single-coded stream - and have it executed)
+Line(st, f) == [st EXCEPT !.base = f, !.frames = 0,
+                          !.lc = IF f = Now(st) THEN @ ELSE [last |-> "", lastPac |-> FALSE, lastHead |-> ""]]
+\* as found (before the repair recorded as KF-C06-2): last_command survived any line change
+LineAsFound(st, f) == [st EXCEPT !.base = f, !.frames = 0]
 \* end of read(): the final flush
 End(st, n, J) == Flush(st, n, J)
 =============================================================================
